@@ -12,7 +12,7 @@ const bufT = "gossip/dagordering.EventsBuffer"
 
 func init() {
 	register("C14", "other", "T17 Typestate (released flag), T2/T4 Dominates/GuardedBy, T5 ExactlyOneOf, T7 Pairing, T3 PostDominates, T1 LockSet",
-		"Decides the structural conditions of the ordering buffer's contract: callback.Process is reachable only for an event whose parents were all found and whose Check passed, and only for an event that cannot already be released (fresh allocation, or a guard on its released flag / buffer membership taken after the last point where other events may have been processed — the recheck recursion over a stale snapshot is the case tests never reach); released is written only by releaseEvent, which reports only on the not-yet-released edge; every removal from the buffer is paired with releaseEvent of that event and every push ends in exactly one of buffered / released; the spill loop runs after every push and exits only within both limits; PushEvent and Clear hold the mutex throughout. Liveness (every event of a parents-closed set is eventually processed) is not decided.",
+		"Decides the structural conditions of the ordering buffer's contract on the inlined view of pushEvent / PushEvent / spillIncompletes (helpers of the package expanded, so the facts do not depend on how the code is cut into functions): callback.Process is reachable only for an event whose parents were all found and whose Check passed, and only for an event that cannot already be released (fresh allocation, or a guard on its released flag / buffer membership taken after the last point where other events may have been processed — the recheck recursion over a stale snapshot is the case tests never reach); released is written only by releaseEvent, which reports only on the not-yet-released edge; every removal from the buffer is paired with releaseEvent of that event and every push ends in exactly one of buffered / released; the spill loop runs after every push and exits only within both limits; PushEvent and Clear hold the mutex throughout. Liveness (every event of a parents-closed set is eventually processed) is not decided.",
 		[]string{"application callbacks are opaque", "wlru.Cache is internally synchronised (C28/C29)"},
 		runC14)
 }
@@ -20,10 +20,32 @@ func init() {
 func runC14(c *core.Ctx) {
 	p := c.P
 	relF := "gossip/dagordering.event.released"
+	incF := bufT + ".incompletes"
 	cbProcess := "gossip/dagordering.Callback.Process"
 	cbReleased := "gossip/dagordering.Callback.Released"
 	cbCheck := "gossip/dagordering.Callback.Check"
 	cbGet := "gossip/dagordering.Callback.Get"
+	pushName, relName, spillName := bufT+".pushEvent", bufT+".releaseEvent", bufT+".spillIncompletes"
+
+	// every declared function and function literal of the package
+	allFuncs := func() [][2]*core.FuncInfo {
+		var out [][2]*core.FuncInfo
+		for _, f := range p.FuncsInPkg("gossip/dagordering") {
+			out = append(out, [2]*core.FuncInfo{f, f})
+			for _, l := range allLits(f) {
+				out = append(out, [2]*core.FuncInfo{f, l})
+			}
+		}
+		return out
+	}
+	onIncompletes := func(n *c14Node, names ...string) bool {
+		for _, nm := range names {
+			if n.CS.Name == nm {
+				return n.recvField() == incF
+			}
+		}
+		return false
+	}
 
 	c.Clause("C14.released", func() {
 		c.Fld(relF)
@@ -32,7 +54,7 @@ func runC14(c *core.Ctx) {
 		for _, f := range p.FuncsInPkg("gossip/dagordering") {
 			for _, a := range assignsToField(f, relF) {
 				n++
-				c.Check(f.Name == bufT+".releaseEvent", "write of released in "+short(f.Name), "T6 WhoMayWrite", a.Stmt.Pos(), "released is set by releaseEvent only", "released is written outside releaseEvent")
+				c.Check(f.Name == relName, "write of released in "+short(f.Name), "T6 WhoMayWrite", a.Stmt.Pos(), "released is set by releaseEvent only", "released is written outside releaseEvent")
 			}
 			for _, l := range f.Lits() {
 				for _, a := range assignsToField(l, relF) {
@@ -42,7 +64,7 @@ func runC14(c *core.Ctx) {
 			}
 		}
 		c.ExpectAtLeast("writes of event.released", n, 1)
-		rel := c.Fn(bufT + ".releaseEvent")
+		rel := c.Fn(relName)
 		ev := rel.Param(0)
 		isNotReleased := func(f *core.FuncInfo, v *types.Var) func(core.Fact) bool {
 			return func(ft core.Fact) bool {
@@ -84,244 +106,341 @@ func runC14(c *core.Ctx) {
 		}
 	})
 
-	c.Clause("C14.process-once", func() {
-		push := c.Fn(bufT + ".pushEvent")
-		pce := c.Fn(bufT + ".processCompleteEvent")
-		// T6: Process is called only in processCompleteEvent, which is called only from pushEvent
-		for _, f := range p.FuncsInPkg("gossip/dagordering") {
-			if f != pce && len(f.CallsTo(cbProcess)) > 0 {
-				c.Fail("Process called in "+short(f.Name), "T6 WhoMayCall", f.CallsTo(cbProcess)[0].Pos(), "callback.Process is invoked outside processCompleteEvent")
-			}
-			if f != push && len(f.CallsTo(bufT+".processCompleteEvent")) > 0 {
-				c.Fail("processCompleteEvent called in "+short(f.Name), "T6 WhoMayCall", f.CallsTo(bufT + ".processCompleteEvent")[0].Pos(), "processCompleteEvent is invoked outside pushEvent")
-			}
-		}
-		procSites := pce.CallsTo(cbProcess)
-		c.ExpectAtLeast("callback.Process sites", len(procSites), 1)
-		pceSites := push.CallsTo(bufT + ".processCompleteEvent")
-		c.ExpectAtLeast("processCompleteEvent sites", len(pceSites), 1)
-		e := push.Param(0)
-		notReleased := func(f *core.FuncInfo, isArg func(ast.Expr) bool) func(core.Fact) bool {
-			return func(ft core.Fact) bool {
-				cm, ok := core.NormCmp(ft)
-				if !ok {
-					return false
-				}
-				if cm.R == nil {
-					// !x.released
-					root, path := fieldPath(f, cm.L)
-					if cm.Op == token.NEQ && len(path) == 1 && path[0] == relF && isArg(root) {
-						return true
-					}
-					// membership in incompletes: buf.incompletes.Contains(x.event.ID()) true
-					if cm.Op == token.EQL {
-						if call := isCallTo(f, cm.L, "utils/wlru.Cache.Contains"); call != nil && len(call.Args) == 1 {
-							found := false
-							ast.Inspect(call.Args[0], func(n ast.Node) bool {
-								if ex, ok := n.(ast.Expr); ok && isArg(ex) {
-									found = true
-								}
-								return !found
-							})
-							return found
-						}
-					}
-				}
+	// notReleased: the fact says that the event `target` is not released: !x.released, or x is still a
+	// member of the buffer (incompletes.Contains(x.event.ID()) is true).
+	notReleased := func(target c14Val) func(c14Fact) bool {
+		return func(ft c14Fact) bool {
+			cm, ok := core.NormCmp(ft.Fact)
+			if !ok || cm.R != nil {
 				return false
 			}
+			if cm.Op == token.NEQ {
+				root, path := ft.Fr.fieldPath(cm.L)
+				return len(path) == 1 && path[0] == relF && root.same(target)
+			}
+			if f2, call := ft.Fr.callTo(cm.L, "utils/wlru.Cache.Contains"); call != nil && len(call.Args) == 1 {
+				found := false
+				ast.Inspect(call.Args[0], func(n ast.Node) bool {
+					if ex, ok := n.(ast.Expr); ok && !found && f2.val(ex).same(target) {
+						found = true
+					}
+					return !found
+				})
+				return found
+			}
+			return false
 		}
-		// (A) a guard inside pushEvent that dominates processCompleteEvent
-		guardedInside := true
-		for _, s := range pceSites {
-			if ok, _ := push.GuardedBy(s.Pt, notReleased(push, func(x ast.Expr) bool { return varOf(push, x) == e })); !ok {
+	}
+
+	c.Clause("C14.process-once", func() {
+		push := c.Fn(pushName)
+		vp := c14NewView(push, 4, nil)
+		// T6: Process is called only by pushEvent and by helpers that run only as a part of pushEvent
+		priv := vp.private()
+		for _, fg := range allFuncs() {
+			if sites := fg[1].CallsTo(cbProcess); len(sites) > 0 && !(fg[0] == fg[1] && priv[fg[1]]) {
+				c.Fail("Process called in "+short(fg[1].Name), "T6 WhoMayCall", sites[0].Pos(), "callback.Process is invoked outside pushEvent and the helpers that only pushEvent runs: the guards of pushEvent (parents found, Check passed, event not released) do not protect this call")
+			}
+		}
+		procs := vp.callsTo(cbProcess)
+		c.ExpectAtLeast("callback.Process sites", len(procs), 1)
+		c.Need(vp.reachable(procs...) && vp.reachable(vp.Exit), "callback.Process and the return of pushEvent are reachable in the inlined view")
+		e := c14Val{Fr: vp.Root, V: push.Param(0)}
+		c.Need(e.V != nil, "pushEvent(e, …)")
+		// (A) a guard inside pushEvent on every path to Process
+		guardedInside := len(procs) > 0
+		for _, pn := range procs {
+			if ok, _ := vp.guarded(pn, notReleased(e)); !ok {
 				guardedInside = false
 			}
 		}
 		if guardedInside {
-			c.Pass("pushEvent guards released before processing", "T17 Typestate", "processCompleteEvent is reachable only on the !e.released edge inside pushEvent")
+			c.Pass("pushEvent guards released before processing", "T17 Typestate", "callback.Process is reachable only on the !e.released edge inside pushEvent")
 		}
-		// (B) otherwise every call site must pass a not-released event
+		// (B) otherwise every call of pushEvent must pass a not-released event
+		views := map[*core.FuncInfo]*c14View{}
+		inPush := vp.funcs()
 		n := 0
-		for _, f := range p.FuncsInPkg("gossip/dagordering") {
-			for _, cs := range f.CallsTo(bufT + ".pushEvent") {
+		for _, fg := range allFuncs() {
+			top, g := fg[0], fg[1]
+			for _, cs := range g.CallsTo(pushName) {
 				n++
 				if guardedInside {
 					continue
 				}
-				arg := cs.Call.Args[0]
-				v := varOf(f, arg)
-				construct := "pushEvent call in " + short(f.Name)
-				if f == push {
-					construct = "recheck recursion"
+				construct := "pushEvent call in " + short(top.Name)
+				var w *c14View
+				if inPush[g] {
+					w, construct = vp, "recheck recursion"
+				} else if g == top {
+					if views[top] == nil {
+						views[top] = c14NewView(top, 4, nil)
+					}
+					w = views[top]
 				}
-				// fresh allocation?
-				if v != nil {
-					as := assignsToVar(f, v)
-					if len(as) == 1 && as[0].RHS != nil && isFreshEvent(f, as[0].RHS, relF) {
-						c.Pass(construct+" passes a fresh event", "T17 Typestate", "the argument is a newly allocated event (released=false) that no other code has seen")
+				var insts []*c14Node
+				if w != nil {
+					insts = w.calls(func(n *c14Node) bool { return n.CS == cs })
+				}
+				if len(insts) == 0 || len(cs.Call.Args) < 1 {
+					c.Undecided(construct, "T17 Typestate", cs.Pos(), "pushEvent is called from a place the inlined view does not cover (a function literal)")
+					continue
+				}
+				ok, fresh, wit := true, true, ""
+				for _, in := range insts {
+					arg := in.Fr.val(cs.Call.Args[0])
+					if arg.V != nil {
+						as := assignsToVar(arg.Fr.Fn, arg.V)
+						if len(as) == 1 && as[0].RHS != nil && isFreshEvent(arg.Fr.Fn, as[0].RHS, relF) {
+							continue
+						}
+					} else if arg.E != nil && isFreshEvent(arg.Fr.Fn, arg.E, relF) {
 						continue
 					}
+					fresh = false
+					// guard in the same iteration: every path from the entry (and from this call back to itself) takes a not-released edge
+					match := notReleased(arg)
+					o, pth := w.guarded(in, match)
+					if o && w.canReach(in, in) {
+						o, pth = w.guardedBetween(in, in, match)
+					}
+					if !o {
+						ok, wit = false, w.describe(pth)
+					}
 				}
-				// guard in the same iteration: every path from entry (and from this call back to itself) takes a not-released edge
-				match := notReleased(f, func(x ast.Expr) bool { return v != nil && varOf(f, x) == v })
-				ok, wit := f.GuardedBy(cs.Pt, match)
-				if ok && f.CanReach(cs.Pt, cs.Pt) {
-					ok, wit = f.GuardedBetween(cs.Pt, cs.Pt, match)
+				if fresh {
+					c.Pass(construct+" passes a fresh event", "T17 Typestate", "the argument is a newly allocated event (released=false) that no other code has seen")
+					continue
 				}
 				c.Check(ok, construct+" passes a not-released event", "T17 Typestate", cs.Pos(),
 					"the call is reachable only on the edge where the event is known not to be released",
-					"an event taken from a snapshot made before other events were processed is pushed again without checking its released flag or buffer membership: it can be handed to Process after it was processed, failed and reported released ("+f.DescribePath(wit)+")")
+					"an event taken from a snapshot made before other events were processed is pushed again without checking its released flag or buffer membership: it can be handed to Process after it was processed, failed and reported released ("+wit+")")
 			}
 		}
 		c.ExpectAtLeast("pushEvent call sites", n, 2)
 	})
 
 	c.Clause("C14.parents", func() {
-		push := c.Fn(bufT + ".pushEvent")
-		pce := c.Fn(bufT + ".processCompleteEvent")
-		cep := c.Fn(bufT + ".completeEventParents")
-		// parents != nil guard
-		for _, s := range push.CallsTo(bufT + ".processCompleteEvent") {
-			c.Need(len(s.Call.Args) == 2, "processCompleteEvent(e, parents)")
-			pv := varOf(push, s.Call.Args[1])
-			c.Need(pv != nil, "parents argument is a variable")
-			as := assignsToVar(push, pv)
-			okSrc := len(as) == 1 && as[0].RHS != nil && isCallTo(push, as[0].RHS, bufT+".completeEventParents") != nil
-			c.Check(okSrc, "parents come from completeEventParents", "provenance", s.Pos(), "the parents handed on are the result of completeEventParents(e)", "parents do not come from completeEventParents")
-			// varNilFact accepts either operand order (parents != nil, nil != parents, !(nil == parents))
-			ok, wit := push.GuardedBy(s.Pt, varNilFact(push, pv, false))
-			c.Check(ok, "processing only with complete parents", "T4 GuardedBy", s.Pos(), "processCompleteEvent is reached only on the parents != nil edge", "processCompleteEvent reachable with nil parents: "+push.DescribePath(wit))
+		push := c.Fn(pushName)
+		vp := c14NewView(push, 4, nil)
+		e := c14Val{Fr: vp.Root, V: push.Param(0)}
+		procs := vp.callsTo(cbProcess)
+		c.Need(len(procs) >= 1 && vp.reachable(procs...), "pushEvent reaches callback.Process")
+		isGet := func(cs *core.CallSite) bool { return cs.Name == cbGet }
+		// a variable that holds the result of the parents lookup of e: every definition of it is a call, with
+		// e as first argument, of a function of the package that asks callback.Get
+		lookups := map[*core.FuncInfo]bool{}
+		fromLookup := func(fr *c14Frame, x ast.Expr) bool {
+			val := fr.val(x)
+			if val.V == nil {
+				return false
+			}
+			as := assignsToVar(val.Fr.Fn, val.V)
+			if len(as) == 0 {
+				return false
+			}
+			var found []*core.FuncInfo
+			for _, a := range as {
+				if a.RHS == nil {
+					return false
+				}
+				call, _ := ast.Unparen(a.RHS).(*ast.CallExpr)
+				if call == nil || len(call.Args) < 1 {
+					return false
+				}
+				obj, _ := p.ResolveCallee(val.Fr.Fn.Info(), call)
+				fn, _ := obj.(*types.Func)
+				g := p.FuncOf(fn)
+				if g == nil || (len(g.CallsTo(cbGet)) == 0 && len(g.SitesMay(isGet, 2)) == 0) || !val.Fr.val(call.Args[0]).same(e) {
+					return false
+				}
+				found = append(found, g)
+			}
+			for _, g := range found {
+				lookups[g] = true
+			}
+			return true
 		}
-		// completeEventParents: a nil Get result returns nil
-		gets := cep.CallsTo(cbGet)
-		c.ExpectAtLeast("callback.Get sites", len(gets), 1)
-		for _, g := range gets {
-			// result variable
-			var rv *types.Var
-			for _, a := range assignments(cep) {
-				if a.RHS != nil && ast.Unparen(a.RHS) == ast.Expr(g.Call) {
-					rv = varOf(cep, a.LHS)
+		anyNonNil := c14NilFact(func(fr *c14Frame, x ast.Expr) bool { return true }, false)
+		for _, pn := range procs {
+			ok, wit := vp.guarded(pn, c14NilFact(fromLookup, false))
+			if !ok {
+				if o2, _ := vp.guarded(pn, anyNonNil); o2 {
+					c.Fail("parents come from the parents lookup", "provenance", pn.pos(), "the value tested before processing is not the result of the lookup of e's parents through callback.Get")
+					continue
 				}
 			}
-			c.Need(rv != nil, "Get result is stored in a variable")
-			// every non-nil return is guarded by rv != nil in the iteration; equivalently: from the Get call,
-			// the path continuing the loop / reaching a non-nil return must take the rv != nil edge
-			nonNil := returnsWith(cep, 0, func(e ast.Expr) bool { return !core.IsNil(cep.Info(), e) })
-			okAll := len(nonNil) > 0
-			for _, rp := range nonNil {
-				if ok, _ := cep.GuardedBetween(g.Pt, rp, varNilFact(cep, rv, false)); !ok {
-					okAll = false
-				}
-			}
-			c.Check(okAll, "missing parent => nil", "T4 GuardedBy", g.Pos(), "a non-nil parents list is returned only if every Get result was non-nil", "completeEventParents can return a list although a parent was not found")
+			c.Check(ok, "processing only with complete parents", "T4 GuardedBy", pn.pos(), "callback.Process is reached only on the edge where the parents list of e (result of the lookup through callback.Get) is non-nil", "callback.Process reachable although a parent is missing (nil parents): "+vp.describe(wit))
 		}
-		// Check before Process
-		for _, ps := range pce.CallsTo(cbProcess) {
-			chk := pce.CallsTo(cbCheck)
-			okC := len(chk) == 1
-			if okC {
-				// every path to Process passes the Check call or the Check == nil edge
-				nilEdge := pce.GuardEdges(fieldNilFact(pce, cbCheck, true))
-				_, found := core.PathQuery{F: pce, From: pce.Entry(), Target: core.PointSet(ps.Pt), Avoid: core.PointSet(chk[0].Pt), AvoidEdge: nilEdge}.Find()
-				okC = !found
-				// and on the Check path, only when it returned nil
-				var ev *types.Var
-				for _, a := range assignments(pce) {
-					if a.RHS != nil && ast.Unparen(a.RHS) == ast.Expr(chk[0].Call) {
-						ev = varOf(pce, a.LHS)
+		c.ExpectAtLeast("parents lookup functions", len(lookups), 1)
+		// the lookup: a nil Get result returns nil
+		for cep := range lookups {
+			gets := cep.CallsTo(cbGet)
+			c.ExpectAtLeast("callback.Get sites", len(gets), 1)
+			for _, g := range gets {
+				rv := c14ResultVar(cep, g.Call, 0)
+				c.Need(rv != nil, "Get result is stored in a variable")
+				// every non-nil return is guarded by rv != nil in the iteration; equivalently: from the Get call,
+				// the path continuing the loop / reaching a non-nil return must take the rv != nil edge
+				nonNil := returnsWith(cep, 0, func(e ast.Expr) bool { return !core.IsNil(cep.Info(), e) })
+				okAll := len(nonNil) > 0
+				for _, rp := range nonNil {
+					// single-exit form: a returned variable that was set to nil on the way (and not assigned
+					// again before the return) is a nil result
+					var nilSets []core.Point
+					if res := varOf(cep, rp.Node().(*ast.ReturnStmt).Results[0]); res != nil {
+						as := assignsToVar(cep, res)
+						for _, a := range as {
+							if a.RHS == nil || !core.IsNil(cep.Info(), a.RHS) {
+								continue
+							}
+							final := true
+							for _, b := range as {
+								if b.Pt != a.Pt && cep.CanReach(a.Pt, b.Pt) && cep.CanReach(b.Pt, rp) {
+									final = false
+								}
+							}
+							if final {
+								nilSets = append(nilSets, a.Pt)
+							}
+						}
+					}
+					if _, found := (core.PathQuery{F: cep, From: g.Pt, FromAfter: true, Target: core.PointSet(rp), Avoid: core.PointSet(nilSets...), AvoidEdge: cep.GuardEdges(varNilFact(cep, rv, false))}).Find(); found {
+						okAll = false
 					}
 				}
-				if ev != nil {
-					ok2, _ := pce.GuardedBetween(chk[0].Pt, ps.Pt, varNilFact(pce, ev, true))
-					okC = okC && ok2
-				} else {
+				c.Check(okAll, "missing parent => nil", "T4 GuardedBy", g.Pos(), "a non-nil parents list is returned only if every Get result was non-nil", "the parents lookup can return a list although a parent was not found")
+			}
+		}
+		// Check before Process: every path to Process passes the Check call or the Check == nil edge, and
+		// behind the Check call only the edge on which it returned nil
+		chks := vp.callsTo(cbCheck)
+		checkNil := vp.edgesWith(c14NilFact(func(fr *c14Frame, x ast.Expr) bool { return fr.fieldOf(x) == cbCheck }, true))
+		for _, pn := range procs {
+			okC := len(chks) >= 1
+			_, skip := vp.find(c14Query{From: []*c14Node{vp.Entry}, Target: c14NodeSet(pn), Avoid: c14NodeSet(chks...), AvoidEdge: checkNil})
+			okC = okC && !skip
+			for _, ck := range chks {
+				ev := c14ResultVar(ck.Fr.Fn, ck.CS.Call, -1)
+				if ev == nil {
+					okC = false
+					continue
+				}
+				errVal := c14Val{Fr: ck.Fr, V: ev}
+				if ok2, _ := vp.guardedBetween(ck, pn, c14NilFact(func(fr *c14Frame, x ast.Expr) bool { return fr.val(x).same(errVal) }, true)); !ok2 {
 					okC = false
 				}
 			}
-			c.Check(okC, "Check passes before Process", "T2/T4", ps.Pos(), "Process is reached only after Check (when set) returned nil", "Process reachable without a passing Check")
+			c.Check(okC, "Check passes before Process", "T2/T4", pn.pos(), "Process is reached only after Check (when set) returned nil", "Process reachable without a passing Check")
 		}
 	})
 
 	c.Clause("C14.pair", func() {
-		push := c.Fn(bufT + ".pushEvent")
-		spill := c.Fn(bufT + ".spillIncompletes")
+		push := c.Fn(pushName)
+		spill := c.Fn(spillName)
 		pe := c.Fn(bufT + ".PushEvent")
+		rel := c.Fn(relName)
+		// the three anchors are looked at one by one: in the view of one of them the others (and
+		// releaseEvent) stay opaque calls, their helpers are expanded
+		isAnchor := func(g *core.FuncInfo) bool { return g == push || g == spill || g == pe || g == rel }
+		views := map[*core.FuncInfo]*c14View{}
+		covered := map[*core.FuncInfo]bool{}
 		n := 0
 		for _, f := range []*core.FuncInfo{push, spill, pe} {
-			rel := core.Points(f.CallsTo(bufT + ".releaseEvent"))
-			for _, cs := range f.CallsTo("utils/wlru.Cache.Remove", "utils/wlru.Cache.RemoveOldest") {
+			w := c14NewView(f, 3, isAnchor)
+			views[f] = w
+			c.Need(w.reachable(w.Exit), "the return of "+short(f.Name)+" is reachable in the inlined view")
+			for g := range w.funcs() {
+				covered[g] = true
+			}
+			rels := w.callsTo(relName)
+			for _, rm := range w.calls(func(n *c14Node) bool {
+				return onIncompletes(n, "utils/wlru.Cache.Remove", "utils/wlru.Cache.RemoveOldest")
+			}) {
 				n++
 				// paired with releaseEvent, except on the edge where nothing was removed (!ok -> break)
-				ok, wit := pairedWith(f, cs.Pt, rel)
-				if !ok && cs.Name == "utils/wlru.Cache.RemoveOldest" {
+				ok, wit := w.pairedWith(rm, rels)
+				if !ok && rm.CS.Name == "utils/wlru.Cache.RemoveOldest" {
 					// allow the empty-cache exit: avoid edges with fact ok == false of the comma-ok result
-					var okVar *types.Var
-					for _, a := range assignments(f) {
-						if a.RHS != nil && ast.Unparen(a.RHS) == ast.Expr(cs.Call) {
-							if as, isAs := a.Stmt.(*ast.AssignStmt); isAs && len(as.Lhs) == 3 {
-								okVar = varOf(f, as.Lhs[2])
-							}
-						}
-					}
-					emptyEdge := f.GuardEdges(func(ft core.Fact) bool {
-						cm, k := core.NormCmp(ft)
-						return k && cm.R == nil && cm.Op == token.NEQ && okVar != nil && varOf(f, cm.L) == okVar
-					})
-					_, found := core.PathQuery{F: f, From: cs.Pt, FromAfter: true, Avoid: core.PointSet(rel...), AvoidEdge: emptyEdge, TargetExit: true}.Find()
-					_, again := core.PathQuery{F: f, From: cs.Pt, FromAfter: true, Target: core.PointSet(cs.Pt), Avoid: core.PointSet(rel...), AvoidEdge: emptyEdge}.Find()
+					okVar := c14ResultVar(rm.Fr.Fn, rm.CS.Call, 2)
+					okVal := c14Val{Fr: rm.Fr, V: okVar}
+					emptyEdge := w.edgesWith(c14BoolFact(func(v c14Val) bool { return okVar != nil && v.same(okVal) }, false))
+					p1, found := w.find(c14Query{From: []*c14Node{rm}, After: true, Target: c14IsExit, Avoid: c14NodeSet(rels...), AvoidEdge: emptyEdge})
+					p2, again := w.find(c14Query{From: []*c14Node{rm}, After: true, Target: c14NodeSet(rm), Avoid: c14NodeSet(rels...), AvoidEdge: emptyEdge})
 					ok = !found && !again
+					if found {
+						wit = p1
+					} else if again {
+						wit = p2
+					}
 				}
-				c.Check(ok, short(f.Name)+"|"+short(cs.Name)+" paired with releaseEvent", "T7 Pairing", cs.Pos(), "every event removed from the buffer is released on the same path", "an event can be removed from the buffer without being released: "+f.DescribePath(wit))
+				c.Check(ok, short(f.Name)+"|"+short(rm.CS.Name)+" paired with releaseEvent", "T7 Pairing", rm.pos(), "every event removed from the buffer is released on the same path", "an event can be removed from the buffer without being released: "+w.describe(wit))
 			}
 		}
 		c.ExpectAtLeast("buffer removal sites", n, 3)
-		// pushEvent: a non-recheck push ends in exactly one of {Add, releaseEvent}
-		adds := core.Points(push.CallsTo("utils/wlru.Cache.Add"))
-		rels := core.Points(push.CallsTo(bufT + ".releaseEvent"))
-		recheck := push.ParamNamed("recheck")
-		if recheck == nil {
-			recheck = push.Param(2)
+		// T6: nothing else removes from the buffer
+		for _, fg := range allFuncs() {
+			if fg[0] == fg[1] && covered[fg[1]] {
+				continue
+			}
+			for _, cs := range fg[1].CallsTo("utils/wlru.Cache.Remove", "utils/wlru.Cache.RemoveOldest", "utils/wlru.Cache.Purge") {
+				if fieldNameOf(fg[1], cs.Recv()) == incF {
+					c.Fail("removal in "+short(fg[1].Name), "T6 WhoMayCall", cs.Pos(), "events are removed from the buffer outside pushEvent / spillIncompletes / PushEvent and their helpers: nothing pairs this removal with releaseEvent")
+				}
+			}
 		}
-		recheckEdge := push.GuardEdges(func(ft core.Fact) bool {
-			cm, k := core.NormCmp(ft)
-			return k && cm.R == nil && cm.Op == token.EQL && recheck != nil && varOf(push, cm.L) == recheck
-		})
-		both := append(append([]core.Point{}, adds...), rels...)
-		_, found := core.PathQuery{F: push, From: push.Entry(), Avoid: core.PointSet(both...), AvoidEdge: recheckEdge, TargetExit: true}.Find()
+		// pushEvent: a non-recheck push ends in exactly one of {Add, releaseEvent}
+		wp := views[push]
+		adds := wp.calls(func(n *c14Node) bool { return onIncompletes(n, "utils/wlru.Cache.Add") })
+		rels := wp.callsTo(relName)
+		// the recheck flag: the boolean parameter of pushEvent
+		var recheck *types.Var
+		nBool := 0
+		for i := 0; i < push.Obj.Type().(*types.Signature).Params().Len(); i++ {
+			if pv := push.Param(i); pv != nil {
+				if b, ok := pv.Type().Underlying().(*types.Basic); ok && b.Kind() == types.Bool {
+					recheck = pv
+					nBool++
+				}
+			}
+		}
+		if nBool != 1 {
+			recheck = push.ParamNamed("recheck")
+		}
+		c.Need(recheck != nil, "pushEvent has a recheck flag")
+		isRecheck := func(v c14Val) bool { return recheck != nil && v.same(c14Val{Fr: wp.Root, V: recheck}) }
+		both := append(append([]*c14Node{}, adds...), rels...)
+		_, found := wp.find(c14Query{From: []*c14Node{wp.Entry}, Target: c14IsExit, Avoid: c14NodeSet(both...), AvoidEdge: wp.edgesWith(c14BoolFact(isRecheck, true))})
 		c.Check(!found && len(adds) > 0 && len(rels) > 0, "pushEvent|a first push is buffered or released", "T5 ExactlyOneOf", push.Pos(), "every non-recheck path of pushEvent passes incompletes.Add or releaseEvent", "a pushed event can be neither buffered nor released")
 		overlap := false
 		for _, a := range adds {
 			for _, r := range rels {
-				if push.CanReach(a, r) {
+				if wp.canReach(a, r) {
 					overlap = true
 				}
 			}
 		}
 		c.Check(!overlap, "pushEvent|not both buffered and released", "T5 ExactlyOneOf", push.Pos(), "no path buffers an event and then releases it in the same call", "an event is added to the buffer and also released in the same call")
 		// Add only when not recheck (a rechecked event is already buffered) and only with missing parents
-		for _, a := range push.CallsTo("utils/wlru.Cache.Add") {
-			ok, _ := push.GuardedBy(a.Pt, func(ft core.Fact) bool {
-				cm, k := core.NormCmp(ft)
-				return k && cm.R == nil && cm.Op == token.NEQ && varOf(push, cm.L) == recheck
-			})
-			c.Check(ok, "pushEvent|Add only on first push", "T4 GuardedBy", a.Pos(), "incompletes.Add is on the !recheck edge", "a rechecked event is added to the buffer again")
+		for _, a := range adds {
+			ok, _ := wp.guarded(a, c14BoolFact(isRecheck, false))
+			c.Check(ok, "pushEvent|Add only on first push", "T4 GuardedBy", a.pos(), "incompletes.Add is on the !recheck edge", "a rechecked event is added to the buffer again")
 		}
 		// PushEvent: every return is preceded by releaseEvent(e) or pushEvent(e, ...)
-		handled := append(core.Points(pe.CallsTo(bufT+".releaseEvent")), core.Points(pe.CallsTo(bufT+".pushEvent"))...)
+		wpe := views[pe]
+		handled := wpe.callsTo(relName, pushName)
 		okPE := len(handled) >= 2
-		for _, rp := range pe.ReturnPoints() {
-			if ok, _ := pe.MustPassBefore(handled, rp); !ok {
-				okPE = false
-			}
+		if ok, _ := wpe.mustPassBefore(handled, wpe.Exit); !ok {
+			okPE = false
 		}
 		c.Check(okPE, "PushEvent|every push is released or handed to pushEvent", "T2 Dominates", pe.Pos(), "each return of PushEvent (incl. the duplicate branch) follows releaseEvent or pushEvent", "PushEvent can return without releasing or buffering the event")
 	})
 
 	c.Clause("C14.limit", func() {
 		pe := c.Fn(bufT + ".PushEvent")
-		spill := c.Fn(bufT + ".spillIncompletes")
+		spill := c.Fn(spillName)
 		// every spill in the package is either with the configured limit or with the zero limit (Clear)
-		isSpill := func(cs *core.CallSite) bool { return cs.Name == bufT+".spillIncompletes" }
+		isSpill := func(cs *core.CallSite) bool { return cs.Name == spillName }
 		isLimitSpill := func(cs *core.CallSite) bool {
 			return isSpill(cs) && len(cs.Call.Args) == 1 && fieldNameOf(cs.F, cs.Call.Args[0]) == bufT+".limit"
 		}
@@ -337,7 +456,7 @@ func runC14(c *core.Ctx) {
 		// a spill site is a call that certainly performs spillIncompletes(buf.limit), directly or in a
 		// helper. A growth call evaluated inside the return statement has nothing after it.
 		isGrow := func(cs *core.CallSite) bool {
-			return cs.Name == "utils/wlru.Cache.Add" && fieldNameOf(cs.F, cs.Recv()) == bufT+".incompletes"
+			return cs.Name == "utils/wlru.Cache.Add" && fieldNameOf(cs.F, cs.Recv()) == incF
 		}
 		grow := pe.SitesMay(isGrow, 4)
 		c.ExpectAtLeast("calls of PushEvent that can put an event into the buffer", len(grow), 1)
@@ -348,49 +467,62 @@ func runC14(c *core.Ctx) {
 				"every path from a call that can buffer an event to a return of PushEvent passes spillIncompletes(buf.limit)",
 				"PushEvent can return after buffering an event without enforcing the limits afterwards (a spill made before the insertion does not count: the buffer then holds limit+1 events, or limit bytes plus the new event, until the next push): "+pe.DescribePath(wit))
 		}
-		lim := spill.Param(0)
-		namer := func(e ast.Expr) string {
-			e = core.StripConv(spill.Info(), e)
-			if isCallTo(spill, e, "utils/wlru.Cache.Len") != nil {
-				return "len"
+		// the spill loop (helpers and named predicates expanded): the function returns only within both
+		// limits, or through the empty-cache exit
+		ws := c14NewView(spill, 3, nil)
+		lim := c14Val{Fr: ws.Root, V: spill.Param(0)}
+		c.Need(lim.V != nil && ws.reachable(ws.Exit), "spillIncompletes(limit) returns")
+		namer := func(fr *c14Frame) core.AtomNamer {
+			return func(e ast.Expr) string {
+				e = core.StripConv(fr.Fn.Info(), e)
+				if f2, call := fr.callTo(e, "utils/wlru.Cache.Len", "utils/wlru.Cache.Weight"); call != nil {
+					if sel, ok := ast.Unparen(call.Fun).(*ast.SelectorExpr); ok && f2.fieldOf(sel.X) == incF {
+						if calleeName(f2.Fn, call) == "utils/wlru.Cache.Len" {
+							return "len"
+						}
+						return "weight"
+					}
+				}
+				root, path := fr.fieldPath(e)
+				if len(path) == 1 && root.same(lim) {
+					return "limit." + short(path[0])
+				}
+				return ""
 			}
-			if isCallTo(spill, e, "utils/wlru.Cache.Weight") != nil {
-				return "weight"
-			}
-			root, path := fieldPath(spill, e)
-			if len(path) == 1 && varOf(spill, root) == lim {
-				return "limit." + short(path[0])
-			}
-			return ""
 		}
-		// returns are reached only within both limits, or through the empty-cache exit
-		var okVar *types.Var
-		for _, a := range assignments(spill) {
-			if as, isAs := a.Stmt.(*ast.AssignStmt); isAs && len(as.Lhs) == 3 && a.RHS != nil && isCallTo(spill, a.RHS, "utils/wlru.Cache.RemoveOldest") != nil {
-				okVar = varOf(spill, as.Lhs[2])
+		var okVals []c14Val
+		for _, rm := range ws.calls(func(n *c14Node) bool { return onIncompletes(n, "utils/wlru.Cache.RemoveOldest") }) {
+			if v := c14ResultVar(rm.Fr.Fn, rm.CS.Call, 2); v != nil {
+				okVals = append(okVals, c14Val{Fr: rm.Fr, V: v})
 			}
 		}
-		emptyFact := func(ft core.Fact) bool {
-			cm, k := core.NormCmp(ft)
-			return k && cm.R == nil && cm.Op == token.NEQ && okVar != nil && varOf(spill, cm.L) == okVar
-		}
+		emptyFact := c14BoolFact(func(v c14Val) bool {
+			for _, o := range okVals {
+				if v.same(o) {
+					return true
+				}
+			}
+			return false
+		}, false)
 		for _, want := range []string{"len - limit.Metric.Num <= 0", "weight - limit.Metric.Size <= 0"} {
 			w := core.ParseLinCmp(want)
-			for _, rp := range spill.ReturnPoints() {
-				ok, wit := spill.GuardedBy(rp, func(ft core.Fact) bool {
-					if emptyFact(ft) {
-						return true
-					}
-					lc, ok := core.NormLinCmp(spill.Info(), ft, namer)
-					return ok && lc.Equal(w)
-				})
-				c.Check(ok, "spill loop exits only with "+want, "T4 GuardedBy", posOf(rp), "spillIncompletes returns only when "+want+" (or the buffer is empty)", "spillIncompletes can return above the limit: "+spill.DescribePath(wit))
+			path, found := ws.find(c14Query{From: []*c14Node{ws.Entry}, Target: c14IsExit, AvoidEdge: ws.edgesWith(func(ft c14Fact) bool {
+				if emptyFact(ft) {
+					return true
+				}
+				lc, ok := core.NormLinCmp(ft.Fr.Fn.Info(), ft.Fact, namer(ft.Fr))
+				return ok && lc.Equal(w)
+			})})
+			pos := spill.Pos()
+			if len(path) >= 2 {
+				pos = path[len(path)-2].pos()
 			}
+			c.Check(!found, "spill loop exits only with "+want, "T4 GuardedBy", pos, "spillIncompletes returns only when "+want+" (or the buffer is empty)", "spillIncompletes can return above the limit: "+ws.describe(path))
 		}
 		// Clear spills everything
 		clr := c.Fn(bufT + ".Clear")
 		okClr := false
-		for _, s := range clr.CallsTo(bufT + ".spillIncompletes") {
+		for _, s := range clr.CallsTo(spillName) {
 			if cl, ok := ast.Unparen(s.Call.Args[0]).(*ast.CompositeLit); ok && len(cl.Elts) == 0 {
 				okClr = true
 			}
